@@ -424,6 +424,8 @@ pub struct RunOutput {
     pub steps: u64,
     pub sim_time_ns: u64,
     pub goroutines: usize,
+    /// goroutines that had not finished when the run stopped
+    pub live_at_stop: usize,
 }
 
 /// Drive the coroutine set to completion under `ctrl`; the controller is handed back.
@@ -469,6 +471,7 @@ pub fn drive<C: Controller + Send + 'static>(co: &Arc<Co>, ctrl: C, max_steps: u
             steps: s.steps,
             sim_time_ns: s.clock,
             goroutines: s.gs.len(),
+            live_at_stop: s.gs.iter().filter(|g| !matches!(g.state, GState::Done)).count(),
         },
         ctrl,
     )
